@@ -113,6 +113,7 @@ type Exec struct {
 	probes     map[string][]probeRec
 	inProbe    bool
 	nsamples   int
+	powMemo    []powRec
 	ncross     int
 	unitFloats map[*Term]bool
 	vbounds    map[*Term]ival
